@@ -141,6 +141,47 @@ def describe(a):
     return None if a is None else {'type': type(a).__name__, 'dtype': str(a.dtype), 'shape': list(a.shape)}
 
 
+def run_large_layouts(p):
+    """Feature arrays of more than 2^22 elements in every memory layout NumPy hands out (C order, Fortran order as produced by
+    `.T` / `asfortranarray` / `DataFrame.to_numpy()`, float32 and float64) against the float32 tensor: same predictions."""
+    import numpy as np
+    import torch
+    from xrfm import xRFM
+    res = {'family': p['family'], 'params': p, 'disagreements': [], 'failures': [], 'dist': {}}
+    d, nq = p['d'], p['nq']
+    data = xc.make_data(p['dseed'], p['n'], d, p['task'])
+    g = torch.Generator().manual_seed(p['dseed'] + 5)
+    Xq = torch.randn(nq, d, generator=g, dtype=torch.float32)
+    is_class = p['task'] in ('bin', 'multi')
+    with contextlib.redirect_stdout(io.StringIO()), contextlib.redirect_stderr(io.StringIO()):
+        xc.seed_all(p['seed'])
+        model = xRFM(rfm_params=xc.rfm_params('l2', iters=0), max_leaf_size=p['max_leaf_size'], device='cpu', verbose=False,
+                     random_state=p['seed'], split_method='random', use_temperature_tuning=False)
+        model.fit(data['X'], data['y'], data['Xv'], data['yv'])
+        call = model.predict_proba if is_class else model.predict
+        ref = call(Xq).astype(np.float64)
+    base64 = Xq.numpy().astype(np.float64)
+    variants = {'float64 C order': np.ascontiguousarray(base64), 'float64 Fortran order': np.asfortranarray(base64),
+                'float64 transposed view': np.ascontiguousarray(base64.T).T, 'float32 Fortran order': np.asfortranarray(Xq.numpy())}
+    scale = float(np.abs(ref).max()) + 1e-12
+    for name, arr in variants.items():
+        try:
+            with contextlib.redirect_stdout(io.StringIO()), contextlib.redirect_stderr(io.StringIO()):
+                got = call(arr).astype(np.float64)
+        except Exception as e:  # noqa: BLE001
+            res['failures'].append({'signature': f'C20:raises:{type(e).__name__}', 'detail': f'{name}, {arr.size} elements: {str(e)[:160]}'})
+            continue
+        if got.shape != ref.shape or not (np.abs(got - ref).max() <= 2e-3 * scale):
+            bad = int((np.abs(got - ref).max(axis=-1) > 2e-3 * scale).sum()) if got.shape == ref.shape else -1
+            res['failures'].append({'signature': f'C20:prediction-differs:layout',
+                                    'detail': f'{arr.size}-element feature array, {name}: predictions differ from those for the float32 tensor '
+                                              f'by {float(np.abs(got - ref).max()) if got.shape == ref.shape else None} ({bad} of {nq} rows)'})
+    res['nontrivial'] = ['large-layouts', p['task'], p['dseed']]
+    res['dist'] = {'logical': p['task'], 'elements': '> 2^22', 'layouts': len(variants)}
+    res['sample'] = {'task': p['task'], 'rows': nq, 'd': d, 'layouts': list(variants)}
+    return res
+
+
 def run_rfm_level(p):
     """Leaf-level format restoration (`RFM.validate_samples` / `convert_to_format`): a leaf model used directly returns a
     NumPy array for NumPy samples and a tensor for tensor samples, with the same values, whatever the number of internal
@@ -200,6 +241,9 @@ def execute(chunk):
         for p in chunk['cases']:
             if p['family'] == 'rfm-level-formats':
                 results.append(run_rfm_level(p))
+                continue
+            if p['family'] == 'large-array-layouts':
+                results.append(run_large_layouts(p))
                 continue
             res = {'family': p['family'], 'params': p, 'disagreements': [], 'failures': [], 'dist': {}}
             data = xc.make_data(p['dseed'], p['n'], p['d'], p['task'])
@@ -384,6 +428,10 @@ def gen_cases(run):
         cases.append(dict(family='rfm-level-formats', task=['reg1', 'reg2'][k % 2], kernel=kernels[k % len(kernels)], diag=(k % 3 == 2),
                           iters=k % 2, n=r.randint(20, 40), d=r.randint(2, 5), fit_container=['tensor', 'ndarray'][(k // 2) % 2],
                           seed=r.randint(0, 10 ** 6), dseed=r.randint(0, 10 ** 6)))
+    # feature arrays beyond 2^22 elements in every NumPy memory layout (prediction only: the model is fitted on a small tensor)
+    for k in range(2 if quick else 6):
+        cases.append(dict(family='large-array-layouts', task=['reg1', 'multi', 'bin'][k % 3], n=120, d=32, nq=(2 ** 22) // 32 + 4000 + 1000 * k,
+                          max_leaf_size=[200, 60][k % 2], seed=r.randint(0, 10 ** 6), dseed=r.randint(0, 10 ** 6)))
     # outside the documented interface: observations + model comparison only
     outside = [
         ('reg1', {'x': ['tensor', 'float64'], 'y': ['tensor', 'float32', 'col'], 'q': ['tensor', 'float64']}),
